@@ -29,13 +29,21 @@ def run_k7(tier, seed):
     for k in range(reps):
         for n in lens:
             lines.append("seed=%d n=%d" % (seed * 1000 + k * 37 + n, n))
-    p = subprocess.run([bins["k7"]], input="\n".join(lines) + "\n", stdout=subprocess.PIPE, stderr=subprocess.PIPE,
-                       text=True, errors="replace", env=ENV, timeout=1800)
+    import k3
+    # one process per input line would be slow; the watched runner expects one output line per case,
+    # so the harness is run per line here only after a failure of the whole batch
     res = {"total": 0, "conversions": 0, "mismatch": {}, "errors": [], "lines": len(lines)}
-    if p.returncode != 0:
-        res["errors"].append("k7 harness: rc=%d %s" % (p.returncode, p.stderr[-300:]))
+    try:
+        p = subprocess.run([bins["k7"]], input="\n".join(lines) + "\n", stdout=subprocess.PIPE, stderr=subprocess.PIPE,
+                           text=True, errors="replace", env=ENV, timeout=600 if tier == "quick" else 3000)
+        stdout, rc, stderr = p.stdout, p.returncode, p.stderr
+    except subprocess.TimeoutExpired as e:
+        stdout = e.stdout if isinstance(e.stdout, str) else (e.stdout or b"").decode("utf-8", "replace")
+        rc, stderr = 124, "time limit: a conversion does not return"
+    if rc != 0:
+        res["errors"].append("k7 harness: rc=%d %s" % (rc, stderr[-300:]))
     done = 0
-    for line in p.stdout.split("\n"):
+    for line in stdout.split("\n"):
         if line.startswith("seed="):
             f = dict(t.split("=") for t in line.split())
             res["conversions"] = int(f["conversions"])
@@ -49,7 +57,7 @@ def run_k7(tier, seed):
         elif line == "END":
             done += 1
     if done != len(lines) and not res["errors"]:
-        res["errors"].append("k7 harness stopped after %d of %d lines: %s" % (done, len(lines), p.stderr[-300:]))
+        res["errors"].append("k7 harness stopped after %d of %d lines: %s" % (done, len(lines), stderr[-300:]))
     with open(cpath, "w") as f:
         json.dump(res, f)
     return res
